@@ -17,6 +17,8 @@ RULE = ("seeded random operation sequences (12-60 ops) on trees of depth <= 4: c
         "get / remove by dotted key (half of the removes directly on the sub-map after the key was resolved through root and model), duplicate adds; non-trivial = the sequence contains >=1 rejected set, >=1 "
         "accepted set, >=1 rejected construction under a parent and >=1 remove or model-level round trip; distinct = "
         "canonical sequence hash")
+RULE += '; half of the models are handed their parameter map through the input_parameters setter'
+RULE += '; candidate values include compatibility look-alikes of options (full-width letters, micro sign, Kelvin sign) and other-case spellings'
 ASSUMPTIONS = ["bool is accepted where int/float is declared (bool is a subclass of int) - either outcome is accepted",
                "a Quantity offered to a float parameter may be accepted or refused (Quantity subclasses float)",
                "keys passed to get/remove are relative to the root map (the root's own key is not part of the path)"]
@@ -44,15 +46,21 @@ def _val(rng, kind_hint=None):
     if k == "float":
         return ["float", rng.choice([0.0, 0.5, -0.5, 10.0, 10.000001, 99.9, 100.0, 100.1, 1e300, -1e300, rng.uniform(-20, 120)])]
     if k in ("str", "sel"):
-        return ["str", rng.choice(["a", "b", "c", "", "zzz", "opt1", "opt2"])]
+        return ["str", rng.choice(["a", "b", "c", "", "zzz", "opt1", "opt2", "\uff41", "opt\uff11", "A"])]      # incl. look-alikes of options (full-width forms) and another case
     if k == "unit":
-        return ["str", rng.choice(["m", "km", "s", "min", "h", "kg", "xx", "m/s", "km/h"])]
+        return ["str", rng.choice(["m", "km", "s", "min", "h", "kg", "xx", "m/s", "km/h", "\uff4d", "k\uff4d", "\u00b5s", "\uff53", "KM", "\u212a\u0067"])]    # incl. compatibility look-alikes (full-width m, micro sign, Kelvin sign)
     if k == "bool":
         return ["bool", rng.random() < 0.5]
     if k == "quantity":
         c = rng.choice(QCLS)
         u = {"Length": ["m", "km", "mm"], "Duration": ["s", "min", "h"], "Speed": ["m/s", "km/h"], "Mass": ["kg", "g"], "Energy": ["J", "mJ"],
              "Torque": ["N.m", "lbf.ft"]}[c]
+        if rng.random() < 0.25:
+            # a value written in some unit whose SI value lies a hair above (or below) one of the bounds used by the specs
+            fac = {"m": 1.0, "km": 1000.0, "mm": 0.001, "s": 1.0, "min": 60.0, "h": 3600.0, "m/s": 1.0, "km/h": 1 / 3.6, "kg": 1.0, "g": 0.001,
+                   "J": 1.0, "mJ": 0.001, "N.m": 1.0, "lbf.ft": 1.3558179483314004}
+            unit = rng.choice(u)
+            return ["q", c, rng.choice([10.0, 1000.0, 1e9]) * (1 + rng.choice([1e-10, 3e-12, -1e-10, 1e-9 * 0.9])) / fac[unit], unit]
         return ["q", c, rng.choice([0.0, 1.0, -1.0, 5.0, 50.0, 500.0, 1e6, float("nan") if rng.random() < 0.1 else 2.5]), rng.choice(u)]
     if k == "nan":
         return ["nan"]
@@ -350,6 +358,11 @@ def run_case(case, ctx):
             pass
 
     model = M(DEVSSimulatorFloat("c18"))
+    if len(case["ops"]) % 2:
+        # the model is handed a parameter map built elsewhere (the documented setter): from then on that map is the model's
+        from pydsol.core.parameters import InputParameterMap
+        model.input_parameters = InputParameterMap("root", "parameters", 1)
+        ctx.count("models_handed_a_map_through_the_setter")
     root_obj = model.input_parameters
     root_obj._verif_built = True
     root = _Node("map", root_obj.key, 1, True, {}, None, root_obj)
